@@ -191,6 +191,61 @@ def replay_expressions(chk, exprs):
   return n
 
 
+def busy_server_part(chk):
+  """A server that keeps being used stays up: every evaluation is a sign of life for its idle timer (ServerLife.tla's serving
+  loop ends on a request or when NOTHING was heard for auto_shutdown_secs).  Virtual clock in the server module: six
+  evaluations 60 s apart against an idle limit of 100 s all succeed; afterwards, with nothing heard for 150 s, it stops."""
+  import time as real_time
+  import types as pytypes
+  from harness import lazylib
+  from ml_metrics._src.chainables import lazy_fns
+
+  class VC:
+    now = 5000.0
+
+  with dist.installed() as mods:
+    cs = mods.courier_server
+    saved = (cs.time, cs._HRTBT_INTERVAL_SECS)
+    def vtime():
+      VC.now += 1e-4          # a clock never reads the same value twice (the tx-rate log divides by elapsed time)
+      return VC.now
+    cs.time = pytypes.SimpleNamespace(time=vtime, sleep=real_time.sleep)
+    cs._HRTBT_INTERVAL_SECS = 0.01
+    dist._RUN[0] += 1
+    addr = f'busy-r{dist._RUN[0]}'
+    server = cs.CourierServer(addr, auto_shutdown_secs=100)
+    ctx = dict(kind='busy-server')
+    try:
+      server.start()
+      client = mods.courier_utils.CourierClient(addr, call_timeout=5, heartbeat_threshold_secs=1e9)
+      answers = []
+      for step in range(6):
+        VC.now += 60
+        status, val = dist.run_with_deadline(lambda: _outcome(lambda: client.get_result(lazy_fns.trace(lazylib.inc)(step))), 10)
+        answers.append(val if status == 'ok' else (status, repr(val)))
+        real_time.sleep(0.05)        # the serving loop looks at its timer every 10 ms
+      chk.replayed()
+      want = [('ok', i + 1) for i in range(6)]
+      if answers != want:
+        chk.violation('busy-server:stopped-while-in-use', f'evaluations 60 s apart against an idle limit of 100 s: answers {answers}, '
+                      f'locally {want}', dict(ctx, answers=repr(answers)))
+      else:
+        VC.now += 150
+        t = server._thread
+        if t is not None:
+          t.join(timeout=5)
+        if t is not None and t.is_alive():
+          chk.violation('busy-server:idle-limit-ignored', 'nothing heard for 150 s against an idle limit of 100 s: the server is still serving', ctx)
+    finally:
+      try:
+        server._request_shutdown()
+        if server._thread is not None:
+          server._thread.join(timeout=2)
+      except Exception:  # pylint: disable=broad-exception-caught
+        pass
+      cs.time, cs._HRTBT_INTERVAL_SECS = saved
+
+
 def record_concurrent(seed, n_clients, l, ops_per_client, with_shutdown):
   """Concurrent client threads on shared references; returns the Call/Ret trace."""
   rnd = random.Random(seed)
@@ -458,6 +513,7 @@ def body(chk):
     exprs = rnd.sample(exprs, 6000 if thorough else 400)
   exprs += [h['expr'] for h in tg.histories]
   chk.count('expressions', replay_expressions(chk, exprs))
+  busy_server_part(chk)
   # 4. concurrent clients: recorded executions validated against the spec
   traces, hung = [], 0
   for j in range(200 if thorough else 30):
